@@ -310,6 +310,7 @@ pub fn cache_under_witness_faults(tier: Tier) -> CaseOut {
 }
 
 pub fn run(tier: Tier) -> Report {
+    set_delta(1e-7);
     let mut rep = Report::new("C11", tier, "fault_enumeration");
     let ps = programs(tier);
     let total = par_cases(&ps, |_, c| run_program(c, tier));
